@@ -430,6 +430,11 @@ class Verifier(Engine):
             if n in bound:
                 bound[n] = self.coerce(bound[n], k, st)
         env = dict(bound)
+        for n_ in ctr.free:                       # a closure sees the enclosing function's variables
+            if n_ in st.env:
+                env[n_] = st.env[n_]
+            elif n_ in self.closure_env:
+                env[n_] = self.closure_env[n_]
         pre_state = st.fork()
         pre_state.env = env
         # preconditions are obligations of the caller
